@@ -354,7 +354,43 @@ func genC07(r *rng, tier string, emit func(string)) {
 			emit("expad " + hx(c))
 		}
 	}
+	// the extremes, every time: the longest pads (count 254, 255) with the FARTHEST pad byte, its neighbour and the byte
+	// next to the count changed
+	for _, p := range []int{255, 254, 16, 1} {
+		total := p + 1 + r.intn(20)
+		b := r.bytes(total)
+		for i := 0; i <= p; i++ {
+			b[total-1-i] = byte(p)
+		}
+		emit("expad " + hx(b))
+		for _, k := range []int{p, p - 1, 1} {
+			if k < 0 || k > p {
+				continue
+			}
+			c := append([]byte{}, b...)
+			c[total-1-k] ^= byte(1 + r.intn(255))
+			emit("expad " + hx(c))
+		}
+		emit("expad " + hx(b[total-1-p:])) // exactly the pad, nothing before it
+	}
 	emit("expad -")
+	// whole records with the longest pad the format allows (256 bytes, count 255): intact, and with the first, the
+	// second and the last-but-one pad byte wrong
+	for v := 0; v < 4; v++ {
+		mac, key, iv := r.bytes(32), r.block16(), r.block16()
+		payload := r.bytes(16)
+		pad := bytes.Repeat([]byte{255}, 256)
+		switch v {
+		case 1:
+			pad[0] ^= 0x01
+		case 2:
+			pad[1] ^= 0x40
+		case 3:
+			pad[254] ^= 0x80
+		}
+		rec := craftCBCRecord(mac, key, 23, 0, iv, payload, pad)
+		emit(fmt.Sprintf("recread cbc %s %s %s %s %s", hx(mac), hx(key), hx(r.block16()), hx(rec), hx(payload)))
+	}
 	// CBC records built with the keys but unusual padding: every pad length the format allows (longer than
 	// needed, up to 255) must be accepted, a pad with one wrong byte or a count beyond the record refused
 	for k := 0; k < 40; k++ {
